@@ -305,3 +305,468 @@ Proof.
   unfold cell_res. destruct (true && cs_cont c)%bool; [|reflexivity].
   destruct Hp as [->|(p & -> & ->)]; reflexivity.
 Qed.
+
+(* ================================================================== *)
+(* PART 1 — the single step close_table_cell, fully explicit            *)
+(* ================================================================== *)
+Definition span_of (pr : list (str * option str)) : res Z :=
+  match dict_get s_gridSpan pr with
+  | Some (Some g) => of_opt ValueError (int_of_str g)
+  | _ => Ok 1%Z
+  end.
+
+(* the resolved content of the cell being closed *)
+Definition resolved (dup cont : bool) (c : node) (cells prev_rows : list node) : node :=
+  if (dup && cont)%bool then
+    match prev_rows with
+    | NL prev :: _ =>
+        match py_nth (rev prev) (Z.of_nat (length cells)) with
+        | Some src => copy_node src
+        | None => c
+        end
+    | _ => c
+    end
+  else c.
+
+(* the two phases of close_table_cell, named *)
+Definition vmerge (ti ri : nat) (s : cst) : res cst :=
+  sa <- set_caret (Some 3) None s ;;
+  t <- of_opt IndexError (py_get (c_tree sa) ti) ;;
+  rows <- as_list t ;;
+  prev <- match rows with
+          | _ :: p :: _ => as_list p
+          | _ => Err IndexError
+          end ;;
+  cells <- get_row (c_tree sa) ti ri ;;
+  let tc_idx := (Z.of_nat (length cells) - 1)%Z in
+  match cells, py_nth (rev prev) tc_idx with
+  | _ :: _, Some src =>
+      root' <- upd_row (c_tree sa) ti ri
+                 (fun cs => match cs with
+                            | [] => Err IndexError
+                            | _ :: r => Ok (copy_node src :: r)
+                            end) ;;
+      Ok (set_tree root' sa)
+  | _, _ => Ok sa
+  end.
+
+Definition hstep (v : env) (cs : list node) : res (list node) :=
+  if env_dup v then
+    match cs with
+    | [] => Err IndexError
+    | c :: _ => Ok (copy_node c :: cs)
+    end
+  else Ok (NL [NP new_empty_par] :: cs).
+
+Definition hloop (v : env) (ti ri : nat) : nat -> cst -> res cst :=
+  fix loop (n : nat) (s : cst) : res cst :=
+    match n with
+    | O => Ok s
+    | S k =>
+        sa <- set_caret (Some 3) None s ;;
+        root' <- upd_row (c_tree sa) ti ri (hstep v) ;;
+        loop k (set_tree root' sa)
+    end.
+
+Lemma close_table_cell_eq v e ks s :
+  close_table_cell v e ks s =
+  (pr <- gather_Pr e ks ;;
+   rows0 <- match c_tree s with
+            | [] => Err IndexError
+            | t :: _ => as_list t
+            end ;;
+   _ <- match rows0 with
+        | [] => Err IndexError
+        | r :: _ => as_list r
+        end ;;
+   let ti := length (c_tree s) - 1 in
+   let ri := length rows0 - 1 in
+   s1 <- (if (env_dup v && is_continuation pr && Nat.ltb 1 (length rows0))%bool
+          then vmerge ti ri s else Ok s) ;;
+   span <- span_of pr ;;
+   hloop v ti ri (Z.to_nat (span - 1)) s1).
+Proof. reflexivity. Qed.
+
+Lemma hloop_S v ti ri k s :
+  hloop v ti ri (S k) s =
+  (sa <- set_caret (Some 3) None s ;;
+   root' <- upd_row (c_tree sa) ti ri (hstep v) ;;
+   hloop v ti ri k (set_tree root' sa)).
+Proof. reflexivity. Qed.
+
+(* set_caret (Some 3) from depth 3 or 4 only moves the caret *)
+Lemma set_caret3 : forall s, 3 <= c_depth s <= 4 ->
+  exists s', set_caret (Some 3) None s = Ok s'
+    /\ c_tree s' = c_tree s /\ c_depth s' = 3
+    /\ c_open s' = c_open s /\ c_queued s' = c_queued s
+    /\ c_ranges s' = c_ranges s /\ c_counters s' = c_counters s.
+Proof.
+  intros [t d lin o q r cn] H. cbn [c_depth] in H.
+  destruct lin as [[[a b] c] e].
+  assert (D : d = 3 \/ d = 4) by lia.
+  destruct D; subst d; eexists; (split; [reflexivity|]); repeat split.
+Qed.
+
+Lemma py_get_last {A} (x : A) l : py_get (x :: l) (length l) = Some x.
+Proof.
+  unfold py_get. cbn [length].
+  rewrite (proj2 (Nat.leb_gt (S (length l)) (length l))) by lia.
+  replace (S (length l) - 1 - length l) with 0 by lia. reflexivity.
+Qed.
+
+Lemma py_upd_last {A} (x : A) l f :
+  py_upd (x :: l) (length l) f = (y <- f x ;; Ok (y :: l)).
+Proof.
+  unfold py_upd. cbn [length].
+  rewrite (proj2 (Nat.leb_gt (S (length l)) (length l))) by lia.
+  replace (S (length l) - 1 - length l) with 0 by lia. reflexivity.
+Qed.
+
+Lemma upd_row_newest cs prev_rows old f :
+  upd_row (NL (NL cs :: prev_rows) :: old) (length old) (length prev_rows) f
+  = (c' <- f cs ;; Ok (NL (NL c' :: prev_rows) :: old)).
+Proof.
+  unfold upd_row. rewrite py_upd_last. cbn [as_list bind]. rewrite py_upd_last.
+  cbn [as_list bind]. destruct (f cs); reflexivity.
+Qed.
+
+Lemma get_row_newest cs prev_rows old :
+  get_row (NL (NL cs :: prev_rows) :: old) (length old) (length prev_rows) = Ok cs.
+Proof.
+  unfold get_row. rewrite py_get_last. cbn [of_opt bind as_list]. rewrite py_get_last.
+  reflexivity.
+Qed.
+
+Definition same_side (s s' : cst) : Prop :=
+  c_open s' = c_open s /\ c_queued s' = c_queued s /\ c_ranges s' = c_ranges s
+  /\ c_counters s' = c_counters s.
+
+Lemma same_side_refl s : same_side s s.
+Proof. repeat split. Qed.
+Lemma same_side_trans a b c : same_side a b -> same_side b c -> same_side a c.
+Proof. unfold same_side. intros (A1 & A2 & A3 & A4) (B1 & B2 & B3 & B4). repeat split; congruence. Qed.
+
+Lemma hloop_spec v prev_rows old : forall n s x rest,
+  c_tree s = NL (NL (x :: rest) :: prev_rows) :: old -> 3 <= c_depth s <= 4 ->
+  exists s', hloop v (length old) (length prev_rows) n s = Ok s'
+    /\ c_tree s' = NL (NL (repeat (if env_dup v then copy_node x else blank_cell) n ++ x :: rest)
+                          :: prev_rows) :: old
+    /\ 3 <= c_depth s' <= 4 /\ same_side s s'.
+Proof.
+  induction n as [|k IH]; intros s x rest Ht Hd.
+  - exists s. split; [reflexivity|]. split; [exact Ht|]. split; [exact Hd|apply same_side_refl].
+  - rewrite hloop_S.
+    destruct (set_caret3 s Hd) as (sa & E & Ta & Da & Oa & Qa & Ra & Ca).
+    rewrite E. cbn [bind]. rewrite Ta, Ht, upd_row_newest.
+    set (y := if env_dup v then copy_node x else blank_cell).
+    assert (Hy : hstep v (x :: rest) = Ok (y :: x :: rest)).
+    { unfold hstep, y, blank_cell. destruct (env_dup v); reflexivity. }
+    rewrite Hy. cbn [bind].
+    destruct (IH (set_tree (NL (NL (y :: x :: rest) :: prev_rows) :: old) sa) y (x :: rest))
+      as (s' & E' & T' & D' & S').
+    { reflexivity. }
+    { cbn [set_tree c_depth]. lia. }
+    exists s'. split; [exact E'|]. split.
+    { rewrite T'. do 3 f_equal.
+      assert (Hyy : (if env_dup v then copy_node y else blank_cell) = y).
+      { unfold y. destruct (env_dup v); [apply copy_node_idem|reflexivity]. }
+      rewrite Hyy. cbn [repeat]. rewrite repeat_snoc_app. reflexivity. }
+    split; [exact D'|].
+    eapply same_side_trans; [|exact S'].
+    unfold same_side. cbn [set_tree c_open c_queued c_ranges c_counters]. auto.
+Qed.
+
+Lemma vmerge_spec old : forall s c cells prev rest_rows,
+  c_tree s = NL (NL (c :: cells) :: NL prev :: rest_rows) :: old -> 3 <= c_depth s <= 4 ->
+  exists s', vmerge (length old) (length (NL prev :: rest_rows)) s = Ok s'
+    /\ c_tree s' = NL (NL (match py_nth (rev prev) (Z.of_nat (length cells)) with
+                           | Some src => copy_node src
+                           | None => c
+                           end :: cells) :: NL prev :: rest_rows) :: old
+    /\ 3 <= c_depth s' <= 4 /\ same_side s s'.
+Proof.
+  intros s c cells prev rest_rows Ht Hd. unfold vmerge.
+  destruct (set_caret3 s Hd) as (sa & E & Ta & Da & Oa & Qa & Ra & Ca).
+  rewrite E. cbn [bind]. rewrite Ta, Ht, py_get_last. cbn [of_opt bind as_list].
+  rewrite get_row_newest. cbn [bind]. cbv zeta.
+  replace (Z.of_nat (length (c :: cells)) - 1)%Z with (Z.of_nat (length cells))
+    by (cbn [length]; lia).
+  destruct (py_nth (rev prev) (Z.of_nat (length cells))) as [src|].
+  - rewrite upd_row_newest. cbn [bind]. eexists. split; [reflexivity|].
+    split; [reflexivity|]. split; [cbn [set_tree c_depth]; lia|].
+    unfold same_side. cbn [set_tree c_open c_queued c_ranges c_counters]. auto.
+  - exists sa. split; [reflexivity|]. split; [rewrite Ta; exact Ht|].
+    split; [lia|]. unfold same_side. auto.
+Qed.
+
+Lemma tree_ok_prev_NL r0 p rest old :
+  tree_ok (NL (r0 :: p :: rest) :: old) -> exists prev, p = NL prev.
+Proof.
+  intro H. destruct p as [prev|q]; [exists prev; reflexivity|]. exfalso.
+  unfold tree_ok in H. cbn [forallb] in H. apply andb_true_iff in H. destruct H as [H _].
+  rewrite shapeb_NL in H. apply andb_true_iff in H. destruct H as [_ H].
+  cbn [forallb] in H. apply andb_true_iff in H. destruct H as [_ H].
+  apply andb_true_iff in H. destruct H as [H _]. discriminate H.
+Qed.
+
+Lemma close_cell_step_full : forall v e ks s pr g c cells prev_rows old,
+  Inv s -> gather_Pr e ks = Ok pr -> span_of pr = Ok g ->
+  c_tree s = NL (NL (c :: cells) :: prev_rows) :: old -> 3 <= c_depth s ->
+  exists s', close_table_cell v e ks s = Ok s' /\
+    let c' := resolved (env_dup v) (is_continuation pr) c cells prev_rows in
+    let extra := repeat (if env_dup v then copy_node c' else blank_cell) (Z.to_nat (g - 1)) in
+    c_tree s' = NL (NL (extra ++ c' :: cells) :: prev_rows) :: old
+    /\ 3 <= c_depth s' <= 4 /\ same_side s s'.
+Proof.
+  intros v e ks s pr g c cells prev_rows old HI Hpr Hg Ht Hd3. cbv zeta.
+  assert (Hd : 3 <= c_depth s <= 4) by (destruct HI as (_ & R & _); lia).
+  rewrite close_table_cell_eq, Hpr. cbn [bind]. rewrite Ht. cbn [as_list bind]. cbv zeta.
+  replace (length (NL (NL (c :: cells) :: prev_rows) :: old) - 1) with (length old)
+    by (cbn [length]; lia).
+  replace (length (NL (c :: cells) :: prev_rows) - 1) with (length prev_rows)
+    by (cbn [length]; lia).
+  rewrite Hg.
+  assert (Hplain : forall s1 c', c_tree s1 = NL (NL (c' :: cells) :: prev_rows) :: old ->
+            3 <= c_depth s1 <= 4 -> same_side s s1 ->
+            exists s', (span <- Ok g ;; hloop v (length old) (length prev_rows)
+                                             (Z.to_nat (span - 1)) s1) = Ok s'
+              /\ c_tree s' = NL (NL (repeat (if env_dup v then copy_node c' else blank_cell)
+                                           (Z.to_nat (g - 1)) ++ c' :: cells)
+                                    :: prev_rows) :: old
+              /\ 3 <= c_depth s' <= 4 /\ same_side s s').
+  { intros s1 c' T1 D1 S1. cbn [bind].
+    destruct (hloop_spec v prev_rows old (Z.to_nat (g - 1)) s1 c' cells T1 D1)
+      as (s' & E' & T' & D' & S').
+    exists s'. split; [exact E'|]. split; [exact T'|]. split; [exact D'|].
+    eapply same_side_trans; eassumption. }
+  unfold resolved.
+  destruct (env_dup v && is_continuation pr)%bool eqn:Hc.
+  - destruct prev_rows as [|p rest_rows].
+    + cbn [length Nat.ltb Nat.leb andb bind]. apply Hplain; [exact Ht|exact Hd|apply same_side_refl].
+    + assert (Hp : exists prev, p = NL prev).
+      { destruct HI as (T & _). rewrite Ht in T. exact (tree_ok_prev_NL _ _ _ _ T). }
+      destruct Hp as [prev ->].
+      assert (Hlt : Nat.ltb 1 (length (NL (c :: cells) :: NL prev :: rest_rows)) = true)
+        by reflexivity.
+      rewrite Hlt. cbn [andb].
+      destruct (vmerge_spec old s c cells prev rest_rows Ht Hd) as (s1 & E1 & T1 & D1 & S1).
+      rewrite E1. cbn [bind]. apply Hplain; assumption.
+  - cbn [andb bind]. apply Hplain; [exact Ht|exact Hd|apply same_side_refl].
+Qed.
+
+Lemma close_cell_step : forall v e ks s pr g c cells prev_rows old,
+  Inv s -> gather_Pr e ks = Ok pr -> span_of pr = Ok g ->
+  c_tree s = NL (NL (c :: cells) :: prev_rows) :: old -> 3 <= c_depth s ->
+  exists s', close_table_cell v e ks s = Ok s' /\
+    let c' := resolved (env_dup v) (is_continuation pr) c cells prev_rows in
+    let extra := repeat (if env_dup v then copy_node c' else blank_cell) (Z.to_nat (g - 1)) in
+    c_tree s' = NL (NL (extra ++ c' :: cells) :: prev_rows) :: old
+    /\ c_open s' = c_open s /\ c_queued s' = c_queued s /\ c_ranges s' = c_ranges s
+    /\ c_counters s' = c_counters s.
+Proof.
+  intros v e ks s pr g c cells prev_rows old HI Hpr Hg Ht Hd3.
+  destruct (close_cell_step_full v e ks s pr g c cells prev_rows old HI Hpr Hg Ht Hd3)
+    as (s' & E & T & _ & S).
+  exists s'. split; [exact E|]. cbv zeta in *. split; [exact T|exact S].
+Qed.
+
+(* the newest row of the result: one entry per grid column of the cell *)
+Lemma close_cell_width : forall v e ks s pr g c cells prev_rows old,
+  Inv s -> gather_Pr e ks = Ok pr -> span_of pr = Ok g ->
+  c_tree s = NL (NL (c :: cells) :: prev_rows) :: old -> 3 <= c_depth s ->
+  exists s' row, close_table_cell v e ks s = Ok s'
+    /\ c_tree s' = NL (NL row :: prev_rows) :: old
+    /\ length row = length cells + Z.to_nat (Z.max g 1).
+Proof.
+  intros v e ks s pr g c cells prev_rows old HI Hpr Hg Ht Hd3.
+  destruct (close_cell_step v e ks s pr g c cells prev_rows old HI Hpr Hg Ht Hd3)
+    as (s' & E & T & _).
+  cbv zeta in T. eexists. eexists. split; [exact E|]. split; [exact T|].
+  rewrite app_length, repeat_length. cbn [length]. lia.
+Qed.
+
+Lemma close_cell_width_pos : forall v e ks s pr g c cells prev_rows old,
+  Inv s -> gather_Pr e ks = Ok pr -> span_of pr = Ok g -> (1 <= g)%Z ->
+  c_tree s = NL (NL (c :: cells) :: prev_rows) :: old -> 3 <= c_depth s ->
+  exists s' row, close_table_cell v e ks s = Ok s'
+    /\ c_tree s' = NL (NL row :: prev_rows) :: old
+    /\ Z.of_nat (length row) = (Z.of_nat (length cells) + g)%Z.
+Proof.
+  intros v e ks s pr g c cells prev_rows old HI Hpr Hg Hpos Ht Hd3.
+  destruct (close_cell_width v e ks s pr g c cells prev_rows old HI Hpr Hg Ht Hd3)
+    as (s' & row & E & T & L).
+  exists s', row. split; [exact E|]. split; [exact T|]. lia.
+Qed.
+
+(* ================================================================== *)
+(* PART 3 — folding the single step over a row reproduces grid_row      *)
+(* ================================================================== *)
+(* put c as newest cell of the newest row of the newest table *)
+Definition push_cell (c : node) (root : list node) : list node :=
+  match root with
+  | NL (NL cells :: prev_rows) :: old => NL (NL (c :: cells) :: prev_rows) :: old
+  | _ => root
+  end.
+
+(* the effect of close_table_cell on the tree (close_cell_step), as a function *)
+Definition close_tree (dup cont : bool) (g : Z) (root : list node) : list node :=
+  match root with
+  | NL (NL (c :: cells) :: prev_rows) :: old =>
+      let c' := resolved dup cont c cells prev_rows in
+      NL (NL (repeat (if dup then copy_node c' else blank_cell) (Z.to_nat (g - 1)) ++ c' :: cells)
+             :: prev_rows) :: old
+  | _ => root
+  end.
+
+Lemma close_cell_step_tree : forall v e ks s pr g c cells prev_rows old,
+  Inv s -> gather_Pr e ks = Ok pr -> span_of pr = Ok g ->
+  c_tree s = NL (NL (c :: cells) :: prev_rows) :: old -> 3 <= c_depth s ->
+  exists s', close_table_cell v e ks s = Ok s'
+    /\ c_tree s' = close_tree (env_dup v) (is_continuation pr) g (c_tree s).
+Proof.
+  intros v e ks s pr g c cells prev_rows old HI Hpr Hg Ht Hd3.
+  destruct (close_cell_step v e ks s pr g c cells prev_rows old HI Hpr Hg Ht Hd3)
+    as (s' & E & T & _).
+  exists s'. split; [exact E|]. rewrite Ht. exact T.
+Qed.
+
+(* the previous row in document order, as grid_row wants it *)
+Definition prev_doc (prev_rows : list node) : option (list node) :=
+  match prev_rows with
+  | NL p :: _ => Some (rev p)
+  | _ => None
+  end.
+
+Definition cell_step (dup : bool) (root : list node) (c : cellspec) : list node :=
+  close_tree dup (cs_cont c) (Z.of_nat (cs_span c)) (push_cell (cs_own c) root).
+
+Lemma resolved_cell_res dup c acc_nf prev_rows :
+  resolved dup (cs_cont c) (cs_own c) acc_nf prev_rows
+  = cell_res dup (prev_doc prev_rows) (length (rev acc_nf)) c.
+Proof.
+  unfold resolved, cell_res, prev_doc. rewrite rev_length.
+  destruct (dup && cs_cont c)%bool; [|reflexivity].
+  destruct prev_rows as [|[p|q] r]; try reflexivity.
+  rewrite py_nth_nat. reflexivity.
+Qed.
+
+Lemma rev_step (dup : bool) (c : cellspec) (acc_nf prev_rows : list node) :
+  rev (repeat (if dup then copy_node (resolved dup (cs_cont c) (cs_own c) acc_nf prev_rows)
+               else blank_cell) (Z.to_nat (Z.of_nat (cs_span c) - 1))
+       ++ resolved dup (cs_cont c) (cs_own c) acc_nf prev_rows :: acc_nf)
+  = rev acc_nf ++ cell_block dup (prev_doc prev_rows) (length (rev acc_nf)) c.
+Proof.
+  rewrite resolved_cell_res. rewrite rev_app_distr, rev_repeat. cbn [rev].
+  rewrite <- app_assoc. cbn [app]. unfold cell_block, filler.
+  replace (Z.to_nat (Z.of_nat (cs_span c) - 1)) with (cs_span c - 1) by lia.
+  reflexivity.
+Qed.
+
+(* trees only *)
+Lemma row_refines_tree : forall dup prev_rows old cells acc_nf,
+  fold_left (cell_step dup) cells (NL (NL acc_nf :: prev_rows) :: old)
+  = NL (NL (rev (grid_row dup (prev_doc prev_rows) cells (rev acc_nf))) :: prev_rows) :: old.
+Proof.
+  intros dup prev_rows old. induction cells as [|c r IH]; intro acc_nf.
+  - cbn [fold_left grid_row]. rewrite rev_involutive. reflexivity.
+  - cbn [fold_left]. unfold cell_step at 2. cbn [push_cell close_tree]. cbv zeta.
+    rewrite IH, rev_step, grid_row_cons. reflexivity.
+Qed.
+
+Corollary row_refines_tree_fresh : forall dup prev_rows old cells,
+  fold_left (cell_step dup) cells (NL (NL [] :: prev_rows) :: old)
+  = NL (NL (rev (grid_row dup (prev_doc prev_rows) cells [])) :: prev_rows) :: old.
+Proof. intros. apply (row_refines_tree dup prev_rows old cells []). Qed.
+
+(* states: push the cell's own content, then run close_table_cell on the
+   cell element (e, ks) *)
+Definition close_pushed (v : env) (s : cst) (x : einfo * list anode * node) : res cst :=
+  let '(e, ks, own) := x in
+  close_table_cell v e ks (set_tree (push_cell own (c_tree s)) s).
+
+Definition src_matches (x : einfo * list anode * node) (c : cellspec) : Prop :=
+  let '(e, ks, own) := x in
+  exists pr, gather_Pr e ks = Ok pr /\ span_of pr = Ok (Z.of_nat (cs_span c))
+             /\ is_continuation pr = cs_cont c /\ own = cs_own c /\ shapeb 3 own = true.
+
+Lemma push_inv s own cells prev_rows old :
+  Inv s -> 3 <= c_depth s -> c_tree s = NL (NL cells :: prev_rows) :: old ->
+  shapeb 3 own = true ->
+  Inv (set_tree (NL (NL (own :: cells) :: prev_rows) :: old) s).
+Proof.
+  intros (T & R & S) Hd Ht Ho. unfold Inv. cbn [set_tree c_tree c_depth].
+  split.
+  - unfold tree_ok in *. rewrite Ht in T. cbn [forallb] in T |- *.
+    apply andb_true_iff in T. destruct T as [T1 T2]. rewrite T2, andb_true_r.
+    rewrite shapeb_NL in T1 |- *. apply andb_true_iff in T1. destruct T1 as [L1 T1].
+    rewrite L1. cbn [andb forallb] in T1 |- *.
+    apply andb_true_iff in T1. destruct T1 as [T1 T3]. rewrite T3, andb_true_r.
+    rewrite shapeb_NL in T1 |- *. apply andb_true_iff in T1. destruct T1 as [L2 T1].
+    rewrite L2. cbn [andb forallb]. rewrite Ho, T1. reflexivity.
+  - split; [exact R|].
+    destruct own as [l|p]; [|discriminate Ho].
+    assert (D : c_depth s = 3 \/ c_depth s = 4) by lia.
+    destruct D as [-> | ->]; exact I.
+Qed.
+
+Lemma row_refines : forall v prev_rows old srcs cells,
+  Forall2 src_matches srcs cells ->
+  forall s acc_nf,
+  Inv s -> 3 <= c_depth s -> c_tree s = NL (NL acc_nf :: prev_rows) :: old ->
+  exists s', foldM (close_pushed v) srcs s = Ok s'
+    /\ c_tree s' = NL (NL (rev (grid_row (env_dup v) (prev_doc prev_rows) cells (rev acc_nf)))
+                          :: prev_rows) :: old
+    /\ Inv s' /\ 3 <= c_depth s' /\ same_side s s'.
+Proof.
+  intros v prev_rows old srcs cells HF.
+  induction HF as [|x c srcs cells Hx HF IH]; intros s acc_nf HI Hd Ht.
+  - exists s. split; [reflexivity|]. cbn [grid_row]. rewrite rev_involutive.
+    split; [exact Ht|]. split; [exact HI|]. split; [exact Hd|apply same_side_refl].
+  - destruct x as [[e ks] own]. cbn [src_matches] in Hx.
+    destruct Hx as (pr & Hpr & Hg & Hc & Ho & Hs).
+    cbn [foldM]. unfold close_pushed at 1. rewrite Ht. cbn [push_cell].
+    pose proof (push_inv s own acc_nf prev_rows old HI Hd Ht Hs) as HI0.
+    set (s0 := set_tree (NL (NL (own :: acc_nf) :: prev_rows) :: old) s) in *.
+    destruct (close_cell_step_full v e ks s0 pr (Z.of_nat (cs_span c)) own acc_nf prev_rows old
+                HI0 Hpr Hg eq_refl Hd) as (s1 & E1 & T1 & D1 & S1).
+    cbv zeta in T1. rewrite E1. cbn [bind].
+    pose proof (close_table_cell_inv v e ks s0 s1 HI0 E1) as HI1.
+    destruct (IH s1 _ HI1 (proj1 D1) T1) as (s' & E' & T' & I' & D' & S').
+    exists s'. split; [exact E'|]. split.
+    { rewrite T'. rewrite Hc, Ho, rev_step, grid_row_cons. reflexivity. }
+    split; [exact I'|]. split; [exact D'|].
+    eapply same_side_trans; [|exact S']. exact S1.
+Qed.
+
+(* a fresh row: the newest row is empty before its first cell *)
+Corollary row_refines_fresh : forall v prev_rows old srcs cells s,
+  Forall2 src_matches srcs cells ->
+  Inv s -> 3 <= c_depth s -> c_tree s = NL (NL [] :: prev_rows) :: old ->
+  exists s', foldM (close_pushed v) srcs s = Ok s'
+    /\ c_tree s' = NL (NL (rev (grid_row (env_dup v) (prev_doc prev_rows) cells []))
+                          :: prev_rows) :: old
+    /\ Inv s' /\ 3 <= c_depth s'.
+Proof.
+  intros v prev_rows old srcs cells s HF HI Hd Ht.
+  destruct (row_refines v prev_rows old srcs cells HF s [] HI Hd Ht)
+    as (s' & E & T & I' & D & _).
+  exists s'. auto.
+Qed.
+
+Print Assumptions copy_node_idem.
+Print Assumptions close_cell_step.
+Print Assumptions close_cell_step_full.
+Print Assumptions close_cell_width.
+Print Assumptions close_cell_width_pos.
+Print Assumptions grid_row_length.
+Print Assumptions grid_n_by_m.
+Print Assumptions grid_row_cell.
+Print Assumptions grid_unmerged_row.
+Print Assumptions grid_unmerged_agree.
+Print Assumptions grid_false_blanks.
+Print Assumptions grid_true_duplicates.
+Print Assumptions grid_true_cont_fallback.
+Print Assumptions close_cell_step_tree.
+Print Assumptions row_refines_tree.
+Print Assumptions row_refines.
+Print Assumptions row_refines_fresh.
